@@ -654,6 +654,10 @@ PROPERTY = Property(
          "operands fresh or used once (earlier conversion on another backend instance / earlier sum), resolving the same objects / callables / "
          "files twice, conversions without re-initialisation after a later addition (D18 class), p + p, sum([p, p]), duplicate/unknown resolver "
          "names, the pipeline's name used as spec, empty lists, stage-heavy pipelines (>= 2 post-processing items each, several finalizers), "
+         "sequences of conversions on ONE backend object (two backend objects of one class live for the whole history): every ordered pair "
+         "of output formats with three distinct observable output-format pipelines, user pipeline swapped / removed / added / extended "
+         "between convert() calls, convert() then convert_rule() and the reverse, convert_rule() on a fresh backend object, init then "
+         "convert with another format, convert_rule() with another format (D30 class); format and user pipeline chosen per call; "
          "random histories of <= 7 calls; 1-2 rules, one- and two-condition rules, formats default/test/state. Observed: Backend.convert() or "
          "convert_rule()+finalize() output, per-rule pipeline.applied and state, applied_ids, vars. non-trivial = the history contains a "
          "sum/resolve of >= 2 pipelines and >= 2 pipelines/definitions are non-empty; distinct by case hash",
